@@ -104,6 +104,8 @@ def configs(tier):
         for pw in (1, 2):
             add("h_rotator", f"{cls}Rotator|power{pw}", cls=cls, power=pw)
     add("h_rotator", "EOFRotator|power1|standardize", cls="EOF", power=1, flags={"standardize": True})
+    # three rotated modes: the re-ordering after rotation can be any of the 6 permutations (incl. the two 3-cycles)
+    add("h_rotator", "EOFRotator|power1|n5p3k3", cls="EOF", power=1, n=5, p=3, k=3)
     add("h_cross_rotator", "MCARotator|power1", options={"full_rank": True})
     add("h_cross_rotator", "CPCCARotator|alpha=0.5|power1", options={"full_rank": True}, cls="CPCCA", alpha=0.5)
     if tier == "thorough":
